@@ -11,4 +11,535 @@ import Mathlib.Data.List.Basic
 namespace BM.C12
 open BM
 
+theorem getslice_msb0_ok (l : Bits) (a b : Option Int) : getslice .msb0 l a b = .ok (getsliceMsb0 l a b) := rfl
+
+theorem getslice_lsb0_ok (l : Bits) (a b : Option Int) :
+    getslice .lsb0 l a b = .ok (getsliceMsb0 l.reverse a b).reverse := by
+  rw [getslice2_mirror, getslice_msb0_ok]; rfl
+
+theorem middlePieces_msb0_ok (l new : Bits) (k : Nat) (ps : List Nat) :
+    ∃ r, middlePieces .msb0 l new k ps = .ok r := by
+  induction ps with
+  | nil => exact ⟨[], rfl⟩
+  | cons p qs ih =>
+    cases qs with
+    | nil => exact ⟨[], rfl⟩
+    | cons q rest =>
+      obtain ⟨r, hr⟩ := ih
+      refine ⟨new :: getsliceMsb0 l (some ((p : Int) + k)) (some (q : Int)) :: r, ?_⟩
+      simp only [middlePieces, getslice_msb0_ok, hr]
+
+theorem middlePieces_mirror (l new : Bits) (k : Nat) (ps : List Nat) :
+    middlePieces .lsb0 l new k ps = (middlePieces .msb0 l.reverse new.reverse k ps).map (List.map List.reverse) := by
+  induction ps with
+  | nil => rfl
+  | cons p qs ih =>
+    cases qs with
+    | nil => rfl
+    | cons q rest =>
+      obtain ⟨r, hr⟩ := middlePieces_msb0_ok l.reverse new.reverse k (q :: rest)
+      rw [hr] at ih
+      simp only [middlePieces, getslice_msb0_ok, getslice_lsb0_ok, hr, ih, Except.map]
+      simp
+
+theorem replace_mirror (l old new : Bits) (a b : Nat) (count : Nat) (ba : Bool)
+    (hab : a ≤ b) (hb : b ≤ l.length) (hold : old ≠ []) (hlen : l.length ≤ 8192) :
+    replace_ .lsb0 l old new a b count ba
+      = (replace_ .msb0 l.reverse old.reverse new.reverse a b count ba).map fun r => (r.1, r.2.reverse) := by
+  have hf : findall_ .lsb0 l old a b none ba = .ok (findallMsb0 l.reverse old.reverse a b none ba) := by
+    unfold findall_; dsimp only
+    apply findall_lsb0_chunks_eq_partial_s _ _ _ _ _ _ _ hab hb hold
+    · have : ¬ (b - a > max 8192 (old.length * 80) + old.length) := by omega
+      simp [multiChunk, chunkIncrement, this]
+    · simp [countAligned]
+  have hf' : findall_ .msb0 l.reverse old.reverse a b none ba = .ok (findallMsb0 l.reverse old.reverse a b none ba) := rfl
+  unfold replace_
+  rw [hf, hf']
+  simp only [List.length_reverse]
+  generalize startingPoints old.length count (findallMsb0 l.reverse old.reverse a b none ba) [] = pts
+  cases pts with
+  | nil => simp [Except.map]
+  | cons p0 rest =>
+    obtain ⟨mid, hmid⟩ := middlePieces_msb0_ok l.reverse new.reverse old.length (p0 :: rest)
+    simp only [getslice_msb0_ok, getslice_lsb0_ok, middlePieces_mirror, hmid, Except.map]
+    simp only [reduceCtorEq, if_false, if_true]
+    congr 2
+    rw [List.reverse_flatten]
+    congr 1
+    simp
+
+theorem replaceOp_mirror (l old new : Bits) (start stop : Option Int) (count : Option Int) (ba : Bool)
+    (hlen : l.length ≤ 8192) :
+    replaceOp .lsb0 l old new start stop count ba
+      = (replaceOp .msb0 l.reverse old.reverse new.reverse start stop count ba).map fun r => (r.1, r.2.reverse) := by
+  unfold replaceOp
+  simp only [List.length_reverse]
+  by_cases hold : old.length = 0
+  · simp only [hold, if_true]; rfl
+  · simp only [hold, if_false]
+    cases h : validateSlice l.length start stop with
+    | error e => rfl
+    | ok ab =>
+      obtain ⟨a, b⟩ := ab
+      have hb := validateSlice_bounds _ _ _ _ _ h
+      simp only []
+      by_cases hc : count = some 0
+      · simp [hc, Except.map]
+      · simp only [hc, if_false]
+        have hold' : old ≠ [] := by
+          intro hh; apply hold; rw [hh]; rfl
+        exact replace_mirror l old new a b _ ba hb.1 hb.2 hold' hlen
+
+/-- the `i`-th byte of `x`. -/
+def byteAt (x : Bits) (i : Nat) : Bits := (x.drop (8 * i)).take 8
+
+theorem byteGroups_eq (m : Nat) : ∀ (fuel : Nat) (x : Bits), x.length = 8 * m → m < fuel →
+    byteGroups fuel x = (List.range m).map (byteAt x) := by
+  induction m with
+  | zero =>
+    intro fuel x hx hf
+    have : x = [] := List.length_eq_zero_iff.mp (by omega)
+    subst this
+    cases fuel with
+    | zero => omega
+    | succ f => simp [byteGroups]
+  | succ m ih =>
+    intro fuel x hx hf
+    cases fuel with
+    | zero => omega
+    | succ f =>
+      have hne : x.length ≠ 0 := by omega
+      simp only [byteGroups, hne, if_false]
+      rw [ih f (x.drop 8) (by simp; omega) (by omega), List.range_succ_eq_map, List.map_cons, List.map_map]
+      congr 1
+      apply List.map_congr_left
+      intro i _
+      simp only [Function.comp, byteAt, List.drop_drop]
+      congr 2
+      omega
+
+theorem byteAt_reverse (x : Bits) (m i : Nat) (hx : x.length = 8 * m) (hi : i < m) :
+    byteAt x.reverse i = (byteAt x (m - 1 - i)).reverse := by
+  unfold byteAt
+  rw [List.drop_reverse, List.take_reverse, List.length_take, List.drop_take]
+  have e1 : min (x.length - 8 * i) x.length - 8 = 8 * (m - 1 - i) := by omega
+  have e2 : x.length - 8 * i - 8 * (m - 1 - i) = 8 := by omega
+  rw [e1, e2]
+
+theorem reverseBytesOf_whole (x : Bits) (m : Nat) (hx : x.length = 8 * m) :
+    reverseBytesOf x = ((List.range m).map (byteAt x)).reverse.flatten := by
+  unfold reverseBytesOf
+  have hpad : (8 - x.length % 8) % 8 = 0 := by omega
+  simp only [hpad, List.replicate_zero, List.append_nil]
+  rw [byteGroups_eq m _ x hx (by omega)]
+
+theorem byteGroups_reverse (x : Bits) (m : Nat) (hm : x.length = 8 * m) :
+    (List.range m).map (byteAt x.reverse) = (((List.range m).map (byteAt x)).map List.reverse).reverse := by
+  rw [List.map_map, ← List.map_reverse, reverse_range_map, List.map_map]
+  apply List.map_congr_left
+  intro i hi
+  simp only [List.mem_range] at hi
+  simp only [Function.comp]
+  exact byteAt_reverse x m i hm hi
+
+theorem reverseBytesOf_reverse (x : Bits) (hx : x.length % 8 = 0) :
+    reverseBytesOf x.reverse = (reverseBytesOf x).reverse := by
+  obtain ⟨m, hm⟩ : ∃ m, x.length = 8 * m := ⟨x.length / 8, by omega⟩
+  rw [reverseBytesOf_whole x m hm, reverseBytesOf_whole x.reverse m (by simpa using hm)]
+  rw [List.reverse_flatten, byteGroups_reverse x m hm, List.reverse_reverse, List.map_reverse, List.reverse_reverse]
+
+theorem reverseBytesOf_length (x : Bits) (hx : x.length % 8 = 0) : (reverseBytesOf x).length = x.length := by
+  obtain ⟨m, hm⟩ : ∃ m, x.length = 8 * m := ⟨x.length / 8, by omega⟩
+  rw [reverseBytesOf_whole x m hm, List.length_flatten, List.map_reverse, List.sum_reverse, List.map_map]
+  have : ∀ i ∈ List.range m, (List.length ∘ byteAt x) i = 8 := by
+    intro i hi
+    simp only [List.mem_range] at hi
+    simp only [Function.comp, byteAt, List.length_take, List.length_drop]
+    omega
+  rw [List.map_congr_left this]
+  simp [hm]
+  omega
+
+
+theorem pySet_contig (l : Bits) (a b : Nat) (hab : a ≤ b) (hb : b ≤ l.length) (v : Bits) :
+    pySet l ⟨some (a : Int), some (b : Int), none⟩ v = .ok (l.take a ++ v ++ l.drop b) := by
+  have h1 : ¬ ((1 : Int) < 0) := by omega
+  have h2 : ¬ ((a : Int) < 0) := by omega
+  have h3 : ¬ ((b : Int) < 0) := by omega
+  simp only [pySet, Option.getD_none, Py.sliceIndices, h1, h2, h3, if_false, if_true]
+  have e1 : (min (a : Int) (l.length : Int)).toNat = a := by omega
+  have e2 : (max (min (b : Int) (l.length : Int)) (min (a : Int) (l.length : Int))).toNat = b := by omega
+  simp [e1, e2]
+
+theorem reversebytes_msb0 (l : Bits) (a b : Nat) (hab : a ≤ b) (hb : b ≤ l.length) :
+    reversebytes_ .msb0 l (a : Int) (b : Int)
+      = .ok (l.take a ++ reverseBytesOf ((l.drop a).take (b - a)) ++ l.drop b) := by
+  unfold reversebytes_
+  rw [getslice_msb0_ok]
+  simp only [getsliceMsb0, setitemSlice]
+  rw [sliceStep1_some_some l a b hab hb, pySet_contig l a b hab hb]
+
+theorem reversebytes_msb0_length (l r : Bits) (a b : Nat) (hab : a ≤ b) (hb : b ≤ l.length) (h8 : (b - a) % 8 = 0)
+    (h : reversebytes_ .msb0 l (a : Int) (b : Int) = .ok r) : r.length = l.length := by
+  rw [reversebytes_msb0 l a b hab hb] at h
+  injection h with h
+  subst h
+  have : ((l.drop a).take (b - a)).length = b - a := by simp; omega
+  simp only [List.length_append, List.length_take, List.length_drop, reverseBytesOf_length _ (by rw [this]; exact h8), this]
+  omega
+
+theorem reversebytes_mirror (l : Bits) (a b : Nat) (hab : a ≤ b) (hb : b ≤ l.length) (h8 : (b - a) % 8 = 0) :
+    reversebytes_ .lsb0 l (a : Int) (b : Int) = (reversebytes_ .msb0 l.reverse (a : Int) (b : Int)).map List.reverse := by
+  unfold reversebytes_
+  rw [getslice_lsb0_ok, getslice_msb0_ok]
+  simp only []
+  have hlen : (getsliceMsb0 l.reverse (some (a : Int)) (some (b : Int))).length % 8 = 0 := by
+    simp only [getsliceMsb0]
+    rw [sliceStep1_some_some l.reverse a b hab (by simpa using hb)]
+    simp only [List.length_take, List.length_drop, List.length_reverse]
+    have : min (b - a) (l.length - a) = b - a := by omega
+    rw [this]; exact h8
+  rw [setvalid_mirror l _ a b (by omega) (by omega), reverseBytesOf_reverse _ hlen, List.reverse_reverse]
+
+
+theorem byteswapPattern_msb0_len (sizes : List Nat) : ∀ (L : Bits) (x : Nat), x + 8 * sizes.sum ≤ L.length →
+    ∃ r, byteswapPattern .msb0 L (x : Int) sizes = .ok r ∧ r.length = L.length := by
+  induction sizes with
+  | nil => intro L x _; exact ⟨L, rfl, rfl⟩
+  | cons z zs ih =>
+    intro L x hfit
+    simp only [List.sum_cons] at hfit
+    have hc : ((x : Int) + (z : Int) * 8) = ((x + z * 8 : Nat) : Int) := by push_cast; ring
+    simp only [byteswapPattern, hc]
+    have hrb := reversebytes_msb0 L x (x + z * 8) (by omega) (by omega)
+    have hlen := reversebytes_msb0_length L _ x (x + z * 8) (by omega) (by omega) (by omega) hrb
+    rw [hrb]
+    simp only []
+    obtain ⟨r, hr, hrl⟩ := ih _ (x + z * 8) (by rw [hlen]; omega)
+    exact ⟨r, hr, by rw [hrl, hlen]⟩
+
+theorem byteswapPattern_mirror (sizes : List Nat) : ∀ (l : Bits) (x : Nat), x + 8 * sizes.sum ≤ l.length →
+    byteswapPattern .lsb0 l (x : Int) sizes = (byteswapPattern .msb0 l.reverse (x : Int) sizes).map List.reverse := by
+  induction sizes with
+  | nil => intro l x _; simp [byteswapPattern, Except.map]
+  | cons z zs ih =>
+    intro l x hfit
+    simp only [List.sum_cons] at hfit
+    have hc : ((x : Int) + (z : Int) * 8) = ((x + z * 8 : Nat) : Int) := by push_cast; ring
+    simp only [byteswapPattern, hc]
+    rw [reversebytes_mirror l x (x + z * 8) (by omega) (by omega) (by omega)]
+    have hrb := reversebytes_msb0 l.reverse x (x + z * 8) (by omega) (by simp; omega)
+    have hlen := reversebytes_msb0_length l.reverse _ x (x + z * 8) (by omega) (by simp; omega) (by omega) hrb
+    rw [hrb]
+    simp only [Except.map]
+    rw [List.length_reverse] at hlen
+    have := ih (l.reverse.take x ++ reverseBytesOf ((l.reverse.drop x).take (x + z * 8 - x)) ++ l.reverse.drop (x + z * 8)).reverse
+      (x + z * 8) (by rw [List.length_reverse, hlen]; omega)
+    rw [List.reverse_reverse] at this
+    rw [this]
+    rfl
+
+theorem byteswapLoop_msb0_len (sizes : List Nat) (total : Nat) (htot : total = 8 * sizes.sum) :
+    ∀ (k : Nat) (L : Bits) (pe reps : Nat), (k = 0 ∨ (total ≤ pe ∧ pe + (k - 1) * total ≤ L.length)) →
+    ∃ r, byteswapLoop .msb0 sizes total k L (pe : Int) reps = .ok r ∧ r.1.length = L.length := by
+  intro k
+  induction k with
+  | zero => intro L pe reps _; exact ⟨(L, reps), rfl, rfl⟩
+  | succ k ih =>
+    intro L pe reps h
+    have h : total ≤ pe ∧ pe + k * total ≤ L.length := by
+      rcases h with h | h
+      · omega
+      · simpa using h
+    have hc : ((pe : Int) - (total : Int)) = ((pe - total : Nat) : Int) := by omega
+    have hc2 : ((pe : Int) + (total : Int)) = ((pe + total : Nat) : Int) := by omega
+    simp only [byteswapLoop, hc, hc2]
+    have hk : k * total ≥ 0 := Nat.zero_le _
+    obtain ⟨r, hr, hrl⟩ := byteswapPattern_msb0_len sizes L (pe - total) (by rw [← htot]; omega)
+    rw [hr]
+    simp only []
+    obtain ⟨r2, hr2, hr2l⟩ := ih r (pe + total) (reps + 1) (by
+      rcases Nat.eq_zero_or_pos k with hk0 | hkpos
+      · exact Or.inl hk0
+      · right
+        refine ⟨by omega, ?_⟩
+        rw [hrl]
+        have : (k - 1) * total + total = k * total := by
+          rw [← Nat.succ_mul]; congr 1; omega
+        omega)
+    exact ⟨r2, hr2, by rw [hr2l, hrl]⟩
+
+theorem byteswapLoop_mirror (sizes : List Nat) (total : Nat) (htot : total = 8 * sizes.sum) :
+    ∀ (k : Nat) (l : Bits) (pe reps : Nat), (k = 0 ∨ (total ≤ pe ∧ pe + (k - 1) * total ≤ l.length)) →
+    byteswapLoop .lsb0 sizes total k l (pe : Int) reps
+      = (byteswapLoop .msb0 sizes total k l.reverse (pe : Int) reps).map fun r => (r.1.reverse, r.2) := by
+  intro k
+  induction k with
+  | zero => intro l pe reps _; simp [byteswapLoop, Except.map]
+  | succ k ih =>
+    intro l pe reps h
+    have h : total ≤ pe ∧ pe + k * total ≤ l.length := by
+      rcases h with h | h
+      · omega
+      · simpa using h
+    have hc : ((pe : Int) - (total : Int)) = ((pe - total : Nat) : Int) := by omega
+    have hc2 : ((pe : Int) + (total : Int)) = ((pe + total : Nat) : Int) := by omega
+    simp only [byteswapLoop, hc, hc2]
+    have hk : k * total ≥ 0 := Nat.zero_le _
+    rw [byteswapPattern_mirror sizes l (pe - total) (by rw [← htot]; omega)]
+    obtain ⟨r, hr, hrl⟩ := byteswapPattern_msb0_len sizes l.reverse (pe - total) (by rw [← htot, List.length_reverse]; omega)
+    rw [hr]
+    simp only [Except.map]
+    have := ih r.reverse (pe + total) (reps + 1) (by
+      rcases Nat.eq_zero_or_pos k with hk0 | hkpos
+      · exact Or.inl hk0
+      · right
+        refine ⟨by omega, ?_⟩
+        rw [List.length_reverse, hrl, List.length_reverse]
+        have : (k - 1) * total + total = k * total := by
+          rw [← Nat.succ_mul]; congr 1; omega
+        omega)
+    rw [List.reverse_reverse] at this
+    rw [this]
+    rfl
+
+
+theorem byteswap_core (l : Bits) (sizes : List Nat) (a b : Nat) (repeat_ : Bool) (hb : b ≤ l.length)
+    (hfit : repeat_ = true ∨ a + 8 * sizes.sum ≤ l.length) (h0 : 8 * sizes.sum ≠ 0) :
+    byteswapLoop .lsb0 sizes (8 * sizes.sum)
+        (Py.rangeLen ((a : Int) + (8 * sizes.sum : Nat)) (((if repeat_ then b else a + 8 * sizes.sum : Nat) : Int) + 1) (8 * sizes.sum : Nat))
+        l ((a : Int) + (8 * sizes.sum : Nat)) 0
+    = (byteswapLoop .msb0 sizes (8 * sizes.sum)
+        (Py.rangeLen ((a : Int) + (8 * sizes.sum : Nat)) (((if repeat_ then b else a + 8 * sizes.sum : Nat) : Int) + 1) (8 * sizes.sum : Nat))
+        l.reverse ((a : Int) + (8 * sizes.sum : Nat)) 0).map fun r => (r.1.reverse, r.2) := by
+  generalize htot : 8 * sizes.sum = total at *
+  generalize hfin : (if repeat_ then b else a + total : Nat) = finalbit
+  have hfinle : finalbit ≤ l.length := by
+    rw [← hfin]
+    cases repeat_ with
+    | true => simpa using hb
+    | false => rcases hfit with h | h
+               · cases h
+               · simpa using h
+  have hc : ((a : Int) + (total : Int)) = ((a + total : Nat) : Int) := by omega
+  rw [hc]
+  generalize hit : Py.rangeLen ((a + total : Nat) : Int) ((finalbit : Int) + 1) (total : Int) = iters
+  have hcond : iters = 0 ∨ (total ≤ a + total ∧ (a + total) + (iters - 1) * total ≤ l.length) := by
+    rcases Nat.eq_zero_or_pos iters with hz | hp
+    · exact Or.inl hz
+    · right
+      refine ⟨by omega, ?_⟩
+      have := C01.rangeLen_pos_bounds ((a + total : Nat) : Int) ((finalbit : Int) + 1) (total : Int) (by omega) (iters - 1)
+        (by rw [hit]; omega)
+      have h2 := this.2
+      have hcast : (((iters - 1 : Nat) : Int) * (total : Int)) = (((iters - 1) * total : Nat) : Int) := by push_cast; ring
+      rw [hcast] at h2
+      omega
+  exact byteswapLoop_mirror sizes total htot.symm iters l (a + total) 0 hcond
+
+theorem byteswapOp_mirror (l : Bits) (fmt : Option (List Int)) (start stop : Option Int) (repeat_ : Bool)
+    (hfit : repeat_ = true ∨ ∀ a b zs, validateSlice l.length start stop = .ok (a, b) → fmt = some zs →
+      a + 8 * (zs.map Int.toNat).sum ≤ l.length) :
+    byteswapOp .lsb0 l fmt start stop repeat_
+      = (byteswapOp .msb0 l.reverse fmt start stop repeat_).map fun r => (r.1, r.2.reverse) := by
+  unfold byteswapOp
+  simp only [List.length_reverse]
+  cases h : validateSlice l.length start stop with
+  | error e => rfl
+  | ok ab =>
+    obtain ⟨a, b⟩ := ab
+    have hb := validateSlice_bounds _ _ _ _ _ h
+    simp only []
+    have main : ∀ sizes : List Nat, (repeat_ = true ∨ a + 8 * sizes.sum ≤ l.length) →
+        (if 8 * sizes.sum = 0 then (Except.ok (0, l) : Except Err (Nat × Bits)) else
+          match byteswapLoop .lsb0 sizes (8 * sizes.sum)
+              (Py.rangeLen ((a : Int) + (8 * sizes.sum : Nat)) (((if repeat_ then b else a + 8 * sizes.sum : Nat) : Int) + 1) (8 * sizes.sum : Nat))
+              l ((a : Int) + (8 * sizes.sum : Nat)) 0 with
+          | .error e => .error e
+          | .ok (l', reps) => .ok (reps, l'))
+        = (if 8 * sizes.sum = 0 then (Except.ok (0, l.reverse) : Except Err (Nat × Bits)) else
+          match byteswapLoop .msb0 sizes (8 * sizes.sum)
+              (Py.rangeLen ((a : Int) + (8 * sizes.sum : Nat)) (((if repeat_ then b else a + 8 * sizes.sum : Nat) : Int) + 1) (8 * sizes.sum : Nat))
+              l.reverse ((a : Int) + (8 * sizes.sum : Nat)) 0 with
+          | .error e => .error e
+          | .ok (l', reps) => .ok (reps, l')).map fun r => (r.1, r.2.reverse) := by
+      intro sizes hf
+      by_cases h0 : 8 * sizes.sum = 0
+      · simp only [h0, if_true, Except.map, List.reverse_reverse]
+      · simp only [h0, if_false]
+        rw [byteswap_core l sizes a b repeat_ hb.2 hf h0]
+        cases byteswapLoop .msb0 sizes (8 * sizes.sum)
+              (Py.rangeLen ((a : Int) + (8 * sizes.sum : Nat)) (((if repeat_ then b else a + 8 * sizes.sum : Nat) : Int) + 1) (8 * sizes.sum : Nat))
+              l.reverse ((a : Int) + (8 * sizes.sum : Nat)) 0 with
+        | error e => rfl
+        | ok r => rfl
+    cases fmt with
+    | none => exact main [(b - a) / 8] (Or.inr (by simp; omega))
+    | some zs =>
+      by_cases hneg : (zs.any (· < 0)) = true
+      · simp only [hneg, if_true]; rfl
+      · simp only [hneg]
+        apply main
+        rcases hfit with h1 | h1
+        · exact Or.inl h1
+        · exact Or.inr (h1 a b zs h rfl)
+
+
+theorem fm_range_take {α} (l : List α) (a : Nat) (ha : a ≤ l.length) :
+    (List.range a).filterMap (fun i => l[i]?) = l.take a := by
+  apply List.ext_getElem?
+  intro k
+  by_cases hk : k < a
+  · rw [C01.fm_range_getElem? l (fun i => i) a (fun i hi => by omega) k hk, List.getElem?_take, if_pos hk]
+  · rw [List.getElem?_eq_none (by rw [C01.fm_range_length l (fun i => i) a (fun i hi => by omega)]; omega),
+      List.getElem?_eq_none (by simp; omega)]
+
+theorem fm_range_drop {α} (l : List α) (b : Nat) (hb : b ≤ l.length) :
+    (List.range (l.length - b)).filterMap (fun i => l[b + i]?) = l.drop b := by
+  apply List.ext_getElem?
+  intro k
+  by_cases hk : k < l.length - b
+  · rw [C01.fm_range_getElem? l (fun i => b + i) _ (fun i hi => by omega) k hk, List.getElem?_drop]
+  · rw [List.getElem?_eq_none (by rw [C01.fm_range_length l (fun i => b + i) _ (fun i hi => by omega)]; omega),
+      List.getElem?_eq_none (by simp; omega)]
+
+theorem mem_rangeList_one (a b : Nat) (i : Nat) : ((i : Int) ∈ Py.rangeList (a : Int) (b : Int) 1) ↔ (a ≤ i ∧ i < b) := by
+  simp only [Py.rangeList, List.mem_map, List.mem_range, C01.rangeLen_one]
+  constructor
+  · rintro ⟨k, hk, h⟩; omega
+  · intro h; exact ⟨i - a, by omega, by omega⟩
+
+theorem pyDel_contig (l : Bits) (a b : Nat) (hab : a ≤ b) (hb : b ≤ l.length) :
+    pyDel l ⟨some (a : Int), some (b : Int), none⟩ = .ok (l.take a ++ l.drop b) := by
+  have h1 : ¬ ((1 : Int) < 0) := by omega
+  have h2 : ¬ ((a : Int) < 0) := by omega
+  have h3 : ¬ ((b : Int) < 0) := by omega
+  simp only [pyDel, Option.getD_none, Py.sliceIndices, h1, h2, h3, if_false]
+  have e1 : min (a : Int) (l.length : Int) = (a : Int) := by omega
+  have e2 : min (b : Int) (l.length : Int) = (b : Int) := by omega
+  simp only [e1, e2, show ((1 : Int) = 0) = False by simp, if_false]
+  congr 1
+  have hn : l.length = a + ((b - a) + (l.length - b)) := by omega
+  conv => lhs; rw [hn]
+  rw [List.range_add, List.filterMap_append, List.range_add, List.map_append, List.filterMap_append]
+  have p1 : (List.range a).filterMap (fun (i : Nat) => if (i : Int) ∈ Py.rangeList (a : Int) (b : Int) 1 then none else l[i]?)
+      = l.take a := by
+    rw [← fm_range_take l a (by omega)]
+    apply List.filterMap_congr
+    intro i hi
+    simp only [List.mem_range] at hi
+    have : ¬ ((i : Int) ∈ Py.rangeList (a : Int) (b : Int) 1) := by rw [mem_rangeList_one]; omega
+    simp only [this, if_false]
+  have p2 : ((List.range (b - a)).map (a + ·)).filterMap (fun (i : Nat) => if (i : Int) ∈ Py.rangeList (a : Int) (b : Int) 1 then none else l[i]?)
+      = [] := by
+    rw [List.filterMap_eq_nil_iff]
+    intro i hi
+    simp only [List.mem_map, List.mem_range] at hi
+    obtain ⟨k, hk, rfl⟩ := hi
+    have : ((a + k : Nat) : Int) ∈ Py.rangeList (a : Int) (b : Int) 1 := by rw [mem_rangeList_one]; omega
+    simp only [this, if_true]
+  have p3 : (((List.range (l.length - b)).map ((b - a) + ·)).map (a + ·)).filterMap
+      (fun (i : Nat) => if (i : Int) ∈ Py.rangeList (a : Int) (b : Int) 1 then none else l[i]?) = l.drop b := by
+    rw [← fm_range_drop l b hb, List.map_map, List.filterMap_map]
+    apply List.filterMap_congr
+    intro i hi
+    simp only [List.mem_range] at hi
+    simp only [Function.comp]
+    have e : a + (b - a + i) = b + i := by omega
+    rw [e]
+    have : ¬ (((b + i : Nat) : Int) ∈ Py.rangeList (a : Int) (b : Int) 1) := by rw [mem_rangeList_one]; omega
+    simp only [this, if_false]
+  rw [p1, p2, p3, List.nil_append]
+
+
+theorem validateSlice_none (n : Nat) : validateSlice n none none = .ok (0, n) := by
+  simp [validateSlice]
+
+theorem slice_msb0_valid (l : Bits) (a b : Nat) (hab : a ≤ b) (hb : b ≤ l.length) :
+    slice_ .msb0 l (a : Int) (b : Int) = .ok ((l.drop a).take (b - a)) := by
+  simp only [slice_, getslice, getsliceMsb0, sliceStep1_some_some l a b hab hb]
+
+theorem delete_msb0_valid (l : Bits) (k a : Nat) (hb : a + k ≤ l.length) :
+    delete_ .msb0 l (k : Int) (a : Int) = .ok (l.take a ++ l.drop (a + k)) := by
+  have hc : ((a : Int) + (k : Int)) = ((a + k : Nat) : Int) := by omega
+  simp only [delete_, delitemSlice, hc]
+  exact pyDel_contig l a (a + k) (by omega) hb
+
+theorem insert_msb0_valid (l v : Bits) (a : Nat) (ha : a ≤ l.length) :
+    insert_ .msb0 l v (a : Int) = .ok (l.take a ++ v ++ l.drop a) := by
+  simp only [insert_, setitemSlice]
+  exact pySet_contig l a a (by omega) ha v
+
+theorem rolBody_msb0_whole (l : Bits) (bits : Nat) (h : l ≠ []) :
+    rolBody .msb0 l bits none none = .ok (l.drop (bits % l.length) ++ l.take (bits % l.length)) := by
+  have hlen : l.length ≠ 0 := fun hh => h (List.length_eq_zero_iff.mp hh)
+  have hk : bits % l.length < l.length := Nat.mod_lt _ (by omega)
+  unfold rolBody
+  rw [validateSlice_none]
+  simp only [Nat.sub_zero, hlen, if_false]
+  by_cases h0 : bits % l.length = 0
+  · simp [h0]
+  · simp only [h0, if_false]
+    have c1 : ((0 : Nat) : Int) + ((bits % l.length : Nat) : Int) = ((bits % l.length : Nat) : Int) := by omega
+    have c2 : ((l.length : Nat) : Int) - ((bits % l.length : Nat) : Int) = ((l.length - bits % l.length : Nat) : Int) := by omega
+    rw [c1, c2, slice_msb0_valid l 0 _ (by omega) (by omega)]
+    simp only []
+    rw [delete_msb0_valid l _ 0 (by omega)]
+    simp only []
+    rw [insert_msb0_valid _ _ _ (by simp)]
+    have e : bits % l.length + (l.length - bits % l.length) = l.length := by omega
+    simp only [List.take_zero, List.nil_append, Nat.zero_add, List.drop_drop, e, List.drop_length, List.append_nil]
+    rw [List.take_of_length_le (by simp)]
+    simp
+
+theorem rorBody_msb0_whole (l : Bits) (bits : Nat) (h : l ≠ []) :
+    rorBody .msb0 l bits none none
+      = .ok (l.drop (l.length - bits % l.length) ++ l.take (l.length - bits % l.length)) := by
+  have hlen : l.length ≠ 0 := fun hh => h (List.length_eq_zero_iff.mp hh)
+  have hk : bits % l.length < l.length := Nat.mod_lt _ (by omega)
+  unfold rorBody
+  rw [validateSlice_none]
+  simp only [Nat.sub_zero, hlen, if_false]
+  by_cases h0 : bits % l.length = 0
+  · simp [h0]
+  · simp only [h0, if_false]
+    have c2 : ((l.length : Nat) : Int) - ((bits % l.length : Nat) : Int) = ((l.length - bits % l.length : Nat) : Int) := by omega
+    rw [c2, slice_msb0_valid l _ _ (by omega) (by omega)]
+    simp only []
+    rw [delete_msb0_valid l _ _ (by omega)]
+    simp only []
+    rw [insert_msb0_valid _ _ 0 (by omega)]
+    have e : l.length - bits % l.length + bits % l.length = l.length := by omega
+    simp only [List.take_zero, List.nil_append, List.drop_zero, e, List.drop_length, List.append_nil]
+    rw [List.take_of_length_le (by simp)]
+
+theorem rotateLeft_eq (l : Bits) (bits : Nat) (h : l ≠ []) :
+    l.rotateLeft bits = l.drop (bits % l.length) ++ l.take (bits % l.length) := by
+  unfold List.rotateLeft
+  simp only []
+  by_cases h1 : l.length ≤ 1
+  · have hlen : l.length = 1 := by
+      have : l.length ≠ 0 := fun hh => h (List.length_eq_zero_iff.mp hh)
+      omega
+    simp [hlen, Nat.mod_one]
+  · simp only [h1, if_false]
+
+theorem rol_whole (l : Bits) (bits : Nat) (h : l ≠ []) :
+    rolOp .lsb0 l bits none none = .ok (l.rotateLeft bits) ∧ rolOp .msb0 l bits none none = .ok (l.rotateLeft bits) := by
+  have hlen : l.length ≠ 0 := fun hh => h (List.length_eq_zero_iff.mp hh)
+  have hk : bits % l.length < l.length := Nat.mod_lt _ (by omega)
+  have hneg : ¬ ((bits : Int) < 0) := by omega
+  rw [rotateLeft_eq l bits h]
+  constructor
+  · simp only [rolOp, hlen, hneg, if_false, Int.toNat_natCast]
+    rw [rorBody_mirror, rorBody_msb0_whole l.reverse bits (by simpa using h)]
+    simp only [Except.map, List.length_reverse, List.reverse_append, List.reverse_take, List.reverse_drop,
+      List.reverse_reverse]
+    congr 2
+    · congr 1; omega
+    · congr 1; omega
+  · simp only [rolOp, hlen, hneg, if_false, Int.toNat_natCast]
+    exact rolBody_msb0_whole l bits h
+
+
 end BM.C12
